@@ -462,14 +462,21 @@ def transformer_methods(ctx: Ctx) -> Tuple[Dict[str, FunctionInfo], Dict[str, bo
         import copy
         pt = ctx.model.cls('PropertyTransformer', 'G6')
         cls_inline = any('inline=True' in d.replace(' ', '') for d in pt.decorators if d.startswith('v_args'))
-        methods: Dict[str, FunctionInfo] = dict(pt.methods)
+        methods: Dict[str, FunctionInfo] = {}
         inline: Dict[str, bool] = {}
-        for name, fi in pt.methods.items():
-            il = cls_inline
-            for d in fi.decorators:
-                if d.startswith('v_args'):
-                    il = 'inline=True' in d.replace(' ', '')
-            inline[name] = il
+        class_assigns: Dict[str, ast.expr] = {}
+        for k in reversed(pt.mro()):
+            # callbacks inherited from base transformers of the package count too; a class-level v_args applies to
+            # the methods defined in that class
+            k_inline = any('inline=True' in d.replace(' ', '') for d in k.decorators if d.startswith('v_args'))
+            class_assigns.update(k.class_assigns)
+            for name, fi in k.methods.items():
+                il = k_inline
+                for d in fi.decorators:
+                    if d.startswith('v_args'):
+                        il = 'inline=True' in d.replace(' ', '')
+                methods[name] = fi
+                inline[name] = il
         mod = pt.module
 
         def resolve(val: ast.expr, depth: int = 0):
@@ -477,10 +484,10 @@ def transformer_methods(ctx: Ctx) -> Tuple[Dict[str, FunctionInfo], Dict[str, bo
             if depth > 4:
                 return None
             if isinstance(val, ast.Name):
-                if val.id in pt.methods:
-                    return pt.methods[val.id].node, (inline[val.id] if any(d.startswith('v_args') for d in pt.methods[val.id].decorators) else None)
-                if val.id in pt.class_assigns:
-                    return resolve(pt.class_assigns[val.id], depth + 1)
+                if val.id in methods and methods[val.id].cls is not None:
+                    return methods[val.id].node, (inline[val.id] if any(d.startswith('v_args') for d in methods[val.id].decorators) else None)
+                if val.id in class_assigns:
+                    return resolve(class_assigns[val.id], depth + 1)
                 return None
             if isinstance(val, ast.Call) and isinstance(val.func, ast.Call) and ast.unparse(val.func.func).split('.')[-1] == 'v_args' and len(val.args) == 1:
                 inner = resolve(val.args[0], depth + 1)
@@ -513,7 +520,7 @@ def transformer_methods(ctx: Ctx) -> Tuple[Dict[str, FunctionInfo], Dict[str, bo
                     node = ast.fix_missing_locations(Sub().visit(node))
                     return node, None
             return None
-        for name, val in pt.class_assigns.items():
+        for name, val in class_assigns.items():
             if name.startswith('_') or name in methods:
                 continue
             got = resolve(val)
